@@ -399,6 +399,26 @@ class Run:
             self.cache[key] = self.mod.dintegrals(ik, sid, orb, self.ctrl[ik])
         return self.cache[key]
 
+    def dvec_floor(self, ik, sid, orb):
+        """Rounding floor of the derivative vector, per control point: 8 eps x |d(dcov_c) / d log c_f| summed over the mapped
+        features f.  d/dx exp(-(x-c)^2/2) = -(x-c) k vanishes at a training point that is itself a control point, so
+        what is left there is the last-bit difference between the package's c and the model's x, eps |x|, times the
+        feature's occupation derivative: an unbounded map (W: 1.5e3) with a derivative of 1e3 gives 5e-10 of the vector
+        (thorough tier, seed 2).  The sensitivity is measured on the model by scaling one mapped feature of the control
+        points by 1 + 1e-7 at a time."""
+        key = ("dfl", ik, sid, tuple(orb))
+        if key not in self.cache:
+            C = self.ctrl[ik]
+            d0, _ = self.dvec(ik, sid, orb)
+            S = np.zeros_like(np.asarray(d0, dtype=float))
+            for f in range(C.shape[-1]):
+                Cp = np.array(C, copy=True)
+                Cp[..., f] *= 1.0 + 1e-7
+                d1, _ = self.mod.dintegrals(ik, sid, orb, Cp)
+                S += np.abs(np.asarray(d1) - d0) / 1e-7
+            self.cache[key] = 8.0 * np.finfo(float).eps * S
+        return self.cache[key]
+
     def mode_of(self, ik):
         return self.case["kernels"][ik]["mode"]
 
@@ -463,7 +483,7 @@ class Run:
                 for o in s.orbs:
                     okey = tuple(o["key"])
                     dcov, dbase = self.dvec(ik, sid, okey)
-                    ctx.close(dk.dcov_dict[sid][okey], dcov, ("dcov",) + tag, rtol=1e-9,
+                    ctx.close(dk.dcov_dict[sid][okey], dcov, ("dcov",) + tag, rtol=1e-9, atol=self.dvec_floor(ik, sid, okey),
                               scale=float(np.max(np.abs(dcov))) + 1e-2 * sc, sid=sid, kernel=ik, orb=list(okey))
                     ctx.close(dk.dbase_dict[sid][okey], dbase, ("dbase",) + tag, rtol=1e-9, scale=bsc,
                               sid=sid, kernel=ik, orb=list(okey))
